@@ -299,6 +299,67 @@ func runC04(r *Run) {
 	checkDecodeReadOnly(r, wr)
 	wr.Done()
 	_ = attrsF
+	// ---- the MAC handed to Add is a private copy
+	av := r.Rule("C04.addvalue", "the value MessageIntegrity.AddTo hands to Add does not live in the message's own buffer: the digest was summed into Raw's spare capacity, exactly where Add writes the attribute header, so it is copied out first on every path", 1)
+	if at := p.Meth("MessageIntegrity", "AddTo"); at != nil {
+		addM := p.Meth("Message", "Add")
+		n := 0
+		eachInstr(at, func(b *ssa.BasicBlock, i int, in ssa.Instruction) {
+			c, ok := in.(*ssa.Call)
+			if !ok || addM == nil || !callsFn(c, addM) || len(c.Call.Args) < 3 {
+				return
+			}
+			n++
+			var inRaw func(v ssa.Value, depth int) bool
+			inRaw = func(v ssa.Value, depth int) bool {
+				if depth > 8 || v == nil {
+					return false
+				}
+				if messageDerived(v, 0) {
+					return true
+				}
+				switch x := v.(type) {
+				case *ssa.Slice:
+					return inRaw(x.X, depth+1)
+				case *ssa.ChangeType:
+					return inRaw(x.X, depth+1)
+				case *ssa.Phi:
+					for _, e := range x.Edges {
+						if inRaw(e, depth+1) {
+							return true
+						}
+					}
+				case *ssa.Call:
+					if isBuiltinCall(x, "append") {
+						return inRaw(x.Call.Args[0], depth+1)
+					}
+					if x.Call.IsInvoke() && x.Call.Method.Name() == "Sum" && len(x.Call.Args) == 1 {
+						return inRaw(x.Call.Args[0], depth+1)
+					}
+					if sc := x.Call.StaticCallee(); sc != nil && p.isLibFn(sc) {
+						for _, j := range sumScratchParams(p, sc, map[*ssa.Function]bool{}) {
+							if j < len(x.Call.Args) && inRaw(x.Call.Args[j], depth+1) {
+								return true
+							}
+						}
+					}
+				}
+				return false
+			}
+			v := c.Call.Args[2]
+			av.Instance(fnName(at)+"|Add value", true, map[string]string{"fn": fnName(at), "value": exprCanon(v)})
+			if inRaw(v, 0) {
+				av.Violation(at, instrPos(c), "Add("+exprCanon(v)+")", "the digest handed to Add still sits in Raw's spare capacity: when the buffer does not have to move, Add writes the 4-byte attribute header over the first bytes of the very value it is about to copy - the message carries a MAC that does not verify")
+			}
+		})
+		if n == 0 {
+			av.Fail(fnName(at), "no call of Add found in MessageIntegrity.AddTo")
+		}
+	}
+	av.Done()
+	// the setter restores Length and the header on every path, refusals included: a signed message that was
+	// handed to AddTo once more (and refused) still verifies (shared with C03)
+	r.Borrow("C03", map[string]string{"C03.restore": "C04.addrestore"})
 }
 
 func nameOf(f *ssa.Function) string {
@@ -934,6 +995,12 @@ func runC05(r *Run) {
 	ck.Done()
 	// a fingerprinted message stays checkable after an integrity check (of any outcome) ran on it
 	r.Borrow("C04", map[string]string{"C04.restore": "C05.integrityrestore"})
+	// the integrity setter leaves Length and the header length as it found them on every path, refusals included:
+	// a fingerprinted message it refused still passes the fingerprint check (shared with C03)
+	r.Borrow("C03", map[string]string{"C03.restore": "C05.addrestore"})
+	// the checkers rewrite nothing but the length bytes they restore: a bit flipped in transit stays flipped in Raw
+	// for the fingerprint check that follows (shared with C07)
+	r.Borrow("C07", map[string]string{"C07.readonly": "C05.readonly"})
 	wr := r.Rule("C05.wire", "Decode and everything it calls never write a byte of the message (Raw and views of it): the CRC is computed over the bytes as received", 1)
 	checkDecodeReadOnly(r, wr)
 	wr.Done()
